@@ -417,8 +417,9 @@ func (server *SugarDB) updateKeysInCache(ctx context.Context, keys []string) (in
 	}
 
 	wg := sync.WaitGroup{}
-	errChan := make(chan error)
-	doneChan := make(chan struct{})
+	// Buffered: the reader below takes at most one value, the senders must never block on it.
+	errChan := make(chan error, len(server.store))
+	doneChan := make(chan struct{}, 1)
 
 	for db, _ := range server.store {
 		wg.Add(1)
